@@ -15,6 +15,16 @@ theorem C07_guards_known :
     jobCreateGuardUnknown = [] ∧ jobDeleteGuardUnknown = [] ∧ jobCreateGuardSites = 1 ∧ jobDeleteGuardSites = 1 ∧
     sugCleanupGuardUnknown = [] ∧ sugRestartGuardUnknown = [] ∧ sugCleanupGuardSites = 1 ∧ sugRestartGuardSites = 1 := by decide
 
+/-- **C07_job_guards_exclusive**: stated on the regenerated conditions of `reconcileJob` alone — the run object is created only
+    after a Get that answered NotFound and only for a Trial that is not completed; it is deleted only after a Get that found it
+    and only for a completed Trial that does not retain its run; and no pass reaches both calls -/
+theorem C07_job_guards_exclusive (getFailed notFound completed retain earlyStopped u : Bool) :
+    (jobCreateGuard getFailed notFound completed retain earlyStopped u = true → getFailed = true ∧ notFound = true ∧ completed = false) ∧
+    (jobDeleteGuard getFailed notFound completed retain earlyStopped u = true → getFailed = false ∧ completed = true ∧ retain = false) ∧
+    (jobCreateGuard getFailed notFound completed retain earlyStopped u && jobDeleteGuard getFailed notFound completed retain earlyStopped u) = false := by
+  unfold jobCreateGuard jobDeleteGuard
+  cases getFailed <;> cases notFound <;> cases completed <;> cases retain <;> simp
+
 /-- **C07_create_is_source**: for a Trial past its finalizer and Created steps, the model's plan contains the creation of the
     run object exactly when the source's path condition of `r.Create` holds (Get answered NotFound ⇔ the model sees no job) -/
 theorem C07_create_is_source (v : World) (k : Key2) (now : Nat) (t : TrialO) (ht : findTrial v k = some t)
